@@ -318,10 +318,10 @@ class SymExec:
             res.append(o2)
         return res
 
-    def run(self, func, args=None, kwargs=None, fields=None, symbolic=True):
+    def run(self, func, args=None, kwargs=None, fields=None, symbolic=True, events=None):
         """entry point: returns the list of final states (one per path).
         symbolic=True keeps every parameter that the caller did not bind as ('arg', name) (defaults ignored)"""
-        st = State(fields=dict(fields or {}))
+        st = State(fields=dict(fields or {}), events=list(events or []))
         loc = self.bind(func, args or [], kwargs or {})
         if symbolic:
             given = set((kwargs or {}).keys())
